@@ -71,6 +71,11 @@ def container_values_rules(ctx, R="R5"):
             if not conv:
                 continue
             n += 1
+            # (a private helper that only the allowed readers call converts on their behalf)
+            short_ = q.split(".")[-1]
+            callers_ = [q2 for q2, f2 in src.funcs.items() if q2 != q and any(isinstance(x, ast.Call) and (call_name(x) or "").split(".")[-1] == short_ for x in ast.walk(f2))]
+            if q not in allowed and short_.startswith("_") and not short_.startswith("__") and callers_ and all(q2 in allowed for q2 in callers_):
+                continue
             ctx.ob(f"{R}.values-converted-on-request-only", rel, q, conv[0], q in allowed,
                    f"{q} converts data with a plain astype(): values outside the target type wrap around silently (2**32 + 5 becomes 5) instead of being "
                    "refused by the encodings' range checks", conv[0].lineno)
